@@ -79,6 +79,9 @@ class Builder:
             return self.rxify(self.build(e["x"])).rx.pipe(_f, self.build(e["y"]))
         if kd == "pipekw":
             return self.rxify(self.build(e["x"])).rx.pipe(_f, v=self.build(e["y"]))
+        if kd == "isnone":
+            x = self.rxify(self.build(e["x"]))
+            return x.rx.is_not(None) if e["neg"] else x.rx.is_(None)
         if kd == "map":
             return self.rxify(self.build(e["x"])).rx.map(_g)
         if kd == "count":
